@@ -28,6 +28,10 @@ def run(ctx):
         for i, a in enumerate(r.get("value", [])):
             jobs.append(Job("c06.py", "h_consume_order", {"which": "consume", "lang": lang, "automaton": i}, T, 60, tag=f"transition order {lang} pair{a['pair']}.{a['part']}", meta={"twin": lang == "JavaScript" and a["part"] == "header" and a["pair"] == 1, "sigtag": f"order:{lang}"}))
     jobs.append(Job("c06.py", "h_add_order", {"which": "add"}, T, 30, tag="insertion order, 3 files"))
+    for n in ((2,) if ctx.quick() else (2, 3)):
+        for e1 in range(7):
+            jobs.append(Job("c06.py", "h_analyze_history", {"which": "history", "fix_n": n, "fix_e1": e1}, T * (1 if n == 2 else 4), 60, tag=f"file-level isolation, history of {n} files, first ext #{e1}", meta={"sigtag": "file-isolation", "twin": e1 == 0}))
+    ctx.bounds["file-level isolation"] = "Scanner._analyze_file on a file after every history of 1 (quick) / <= 2 (thorough) earlier files drawn from 7 extensions x 4 texts (same bytes under another language included) equals its stand-alone analysis"
     for c in ((0, 2) if ctx.quick() else (0, 1, 2, 3)):
         for f3 in ((0, 2) if ctx.quick() else (0, 2, 5, 7)):
             jobs.append(Job("c11.py", "h_walk_order", {"cfg": c, "fix_f3": f3}, T, 60, tag=f"traversal order cfg{c} file#{f3}", meta={"sigtag": "walk-order", "twin": f3 == 0 and c == 0}))
